@@ -135,8 +135,14 @@ template <typename V> inline bool read_all(const V& v, uvec& shape_out, ivec& da
 
 using dyn_t = na::ndarray_t<std::vector<int>, std::vector<size_t>>;
 
+template <unsigned MODES, typename V> inline std::string dump_array(const V& v, const std::string& mode);
 // MODES: bit 0 = mode=eval compiled, bit 1 = mode=out compiled (each costs compile time per view type)
 template <unsigned MODES, typename V> inline std::string dump(const V& v, const std::string& mode) {
+    // a view whose rank is statically 0 (e.g. sum of sum of a fixed rank-2 array) is a number, not an array: not generated
+    if constexpr (nm::is_none_v<decltype(nm::shape(v))> || nm::meta::is_num_v<V>) return "scalar-result";
+    else return dump_array<MODES>(v, mode);
+}
+template <unsigned MODES, typename V> inline std::string dump_array(const V& v, const std::string& mode) {
     uvec s; ivec data;
     if (!read_all(v, s, data)) return "dim-or-size-mismatch";
     std::string head = "ok shape=" + fmt(s) + " data=" + fmt(data);
